@@ -313,6 +313,14 @@ def h_random(env, ops, n, func_ops=None, shots=1):
             tot = tot + v
             env.check_true(abs(v * shots - round(v * shots)) < 1e-9, "frequencies are multiples of 1/n_shots")
         env.check_true(abs(tot - 1) < 1e-9, "frequencies sum to 1")
+        # applied_gates describes ONE run (the latest): it is the gate list selected by one of the recorded outcome strings
+        got = [(g.name, g.target, g.control) + ((g.parameter,) if g.name in ("MEASURE", "CMEASURE") else ()) for g in circ.applied_gates]
+        cands_ = []
+        for s in outs:
+            _, applied = run_branch(B, ops, n, psi, list(s), func_ops)
+            cands_.append([tuple(a) for a in applied])
+        env.check_true(got in cands_, f"{shots} shots: applied_gates is the gate list of one recorded outcome string (the latest run)",
+                       detail=f"{len(got)} gates; candidates have {[len(c_) for c_ in cands_]}")
         return
     env.check_true(len(outs) == 1, "one shot records one outcome string", detail=str(outs))
     s = outs[0]
